@@ -223,8 +223,12 @@ def r4(c):
 def r5(c):
     P = c.P
     cons = P.constructors(AR, crate='rodbus')
-    where = sorted({P.logical_name(b) for b, _, _ in cons})
-    c.ob('constructors', where == [TRY_FROM], 'AddressRange{..} is built only in AddressRange::try_from', str(where), examined=len(cons))
+    # (a literal single-address range `{start, count: 1}` is valid for every start and needs no check)
+    def single(bb, st):
+        f = dict(zip(st['rv'].get('fields', []), st['rv']['a']))
+        return 'count' in f and q.const_val(bb, f['count']) == 1
+    where = sorted({P.logical_name(b) for b, _, st in cons if not single(b, st)})
+    c.ob('constructors', where == [TRY_FROM], 'AddressRange{..} is built only in AddressRange::try_from (apart from literal one-address ranges)', str(where), examined=len(cons))
     b = P.fn(TRY_FROM)
     c.saw(b, len(b.calls()))
     facts = q.cmp_facts(b)
@@ -245,6 +249,14 @@ def r5(c):
             return False
         a0 = s_.extra[2]
         return (q.const_val(b, a0) == 65535 or str(q.const_def(b, a0) or '').endswith('::MAX')) and count_minus_one(s_.extra[3])
+    def is_wide_end(o):
+        """start + count computed in a wider type (one past the last address): fits iff <= 65536"""
+        s_ = q.sem(b, o)
+        if not (s_.kind == 'bin' and s_.extra[1].startswith('Add')):
+            return False
+        ws = [q.widened(b, s_.extra[2]), q.widened(b, s_.extra[3])]
+        wide = all(q.sem(b, a).kind in ('call', 'cast') for a in (s_.extra[2], s_.extra[3]))
+        return wide and sorted(q.sem_is_name(b, w, 'start') * 1 + q.sem_is_name(b, w, 'count') * 2 for w in ws) == [1, 2]
     okm = False
     for x in xs:
         nz = q.has_fact(b, x['node'], 'ne', lambda a: q.is_name(b, a, 'count'), lambda o: q.const_val(b, o) == 0, facts) or \
@@ -252,14 +264,16 @@ def r5(c):
             q.has_fact(b, x['node'], 'le', lambda o: q.const_val(b, o) == 1, lambda a: q.is_name(b, a, 'count'), facts) or \
             any(q.dominated_by_any(b, q.outcomes(b, cs).get('Some', []), x['node']) for cs in csub)
         ok = ok and nz
-        fit = q.has_fact(b, x['node'], 'le', lambda a: q.is_name(b, a, 'start'), is_max_start, facts)
+        fit = q.has_fact(b, x['node'], 'le', lambda a: q.is_name(b, a, 'start'), is_max_start, facts) or \
+            q.has_fact(b, x['node'], 'le', is_wide_end, lambda o: q.int_value(b, o) == 65536, facts) or \
+            q.has_fact(b, x['node'], 'lt', is_wide_end, lambda o: q.int_value(b, o) == 65537, facts)
         okm = okm or fit
         ok = ok and fit
         s = q.sem(b, x['rv']['a'][0])
         okf = s.kind == 'agg' and q.is_name(b, s.extra['a'][0], 'start') and q.is_name(b, s.extra['a'][1], 'count')
         ok = ok and okf
-    c.ob('try_from/guards', ok, 'the Ok exit carries count != 0 and start <= u16::MAX - (count - 1) and stores (start, count) unchanged', '%d Ok exits' % len(xs), loc_of(b))
-    c.ob('try_from/max_start', okm, 'the bound start is compared with is u16::MAX - (count - 1)', '', loc_of(b))
+    c.ob('try_from/guards', ok, 'the Ok exit carries count != 0 and start <= u16::MAX - (count - 1) (or start + count <= 65536 in a wider type) and stores (start, count) unchanged', '%d Ok exits' % len(xs), loc_of(b))
+    c.ob('try_from/max_start', okm, 'the bound start is compared with is u16::MAX - (count - 1) (or the widened end with 65536)', '', loc_of(b))
     errs = {x['rv']['a'][0] and q.agg_variant_of(b, x['rv']['a'][0]) for x in q.exits(b) if x['kind'] == 'agg' and x['variant'] == 'Err'}
     c.ob('try_from/errors', errs == {('rodbus::error::InvalidRange', 'CountOfZero'), ('rodbus::error::InvalidRange', 'AddressOverflow')}, 'the two rejections are CountOfZero and AddressOverflow', str(errs), loc_of(b))
     p = P.fn(AR_PARSE)
